@@ -207,6 +207,46 @@ func runC14(r *mc.Run) {
 			add(fmt.Sprintf("full/%s=%s", f.name, sn[k]), p)
 		}
 	}
+	// every length from 0 to four times the field size (+1), contents = the right value repeated: only the empty
+	// and the exact length may convert (a check that is right at n-1, n, n+1 can still be wrong at 2n)
+	rep := func(v []byte, n int) []byte {
+		out := make([]byte, n)
+		for i := range out {
+			out[i] = v[i%len(v)]
+		}
+		return out
+	}
+	for _, f := range polFields {
+		for n := 0; n <= 4*f.len+1; n++ {
+			p := &ccpb.Policy{}
+			f.set(p, rep(val(f), n))
+			add(fmt.Sprintf("length/%s=%d", f.name, n), p)
+		}
+	}
+	for pos := 0; pos < 4; pos++ {
+		for n := 0; n <= 4*48+1; n++ {
+			p := &ccpb.Policy{}
+			for i := 0; i < 4; i++ {
+				tp(p).Rtmrs = append(tp(p).Rtmrs, append([]byte(nil), raw0[48+328+48*i:48+376+48*i]...))
+			}
+			tp(p).Rtmrs[pos] = rep(raw0[48+328+48*pos:48+376+48*pos], n)
+			if n == 0 {
+				tp(p).Rtmrs[pos] = []byte{}
+			}
+			add(fmt.Sprintf("length/rtmrs[%d]=%d", pos, n), p)
+		}
+	}
+	for pos := 0; pos < 2; pos++ {
+		for n := 0; n <= 4*48+1; n++ {
+			p := &ccpb.Policy{}
+			tp(p).AnyMrTd = [][]byte{append([]byte(nil), raw0[48+136:48+184]...), append([]byte(nil), raw0[48+136:48+184]...)}
+			tp(p).AnyMrTd[pos] = rep(raw0[48+136:48+184], n)
+			if n == 0 {
+				tp(p).AnyMrTd[pos] = []byte{}
+			}
+			add(fmt.Sprintf("length/any_mr_td[%d]=%d", pos, n), p)
+		}
+	}
 	// SVN minima
 	for _, v := range []uint32{0, 1, 0x0101, 0x0102, 0x0103, 0x0200, 0x0201, 0x0202, 65535, 65536, 65536 + 0x0102, 1<<32 - 1} {
 		p := &ccpb.Policy{}
